@@ -575,6 +575,18 @@ pub fn run(args: &[String]) -> i32 {
                         die(&format!("run {} ended as {} in the batch but passes when re-run alone: simulator malfunction", raw.run, raw.class));
                     }
                 }
+                // fast path: the raw failure already has the identity of a listed finding
+                if let Some(k) = known.findings.iter().find(|k| matches_known(k, &raw)) {
+                    let line = format!("KNOWN-FINDING: property=C15 {}", k.what);
+                    if !known_hits.contains(&line) {
+                        known_hits.push(line);
+                    }
+                    first = raw.run + 1;
+                    if rounds > 200 {
+                        die("more than 200 restarts after known findings");
+                    }
+                    continue;
+                }
                 println!("failure at run {} class={} : minimising ...", raw.run, raw.class);
                 let (case, mut log) = minimise(&dir, &raw);
                 // a stall under simulation can be an artefact of real std primitives reached through full
